@@ -13,7 +13,7 @@ _run, _replay = enumcheck.simple("C05", LEGS,
     "swapped with its successor, every byte replaced by each of 16 structural characters (thorough: any of these followed by a truncation or line "
     "operation), and 10 oversized shapes (huge names, > 512 records, > 512 lines in one block, 200 000-column line, > 1024 lines); each pushed "
     "through read -> run -> write x3 -> free under ASan+UBSan; on the success path the allocator's live-byte count must return to its value before the case (growth on repetition = leak); success must come with a valid alignment of the "
-    "sequences the reader reported. (C) leg C05cli: every option string of a grammar (--type 8 values incl. empty and garbage, --gpo 6, --gpe 3, --tgpe 3, -n 7, --format 5, input {nucleotide, protein, missing, directory, empty, single record}, output {file, missing directory, stdout}; quick: two sub-products, thorough: the full product) and every single injected fopen failure (3 formats x {one file, two files, two files + stdin}) through the CLI main() in a forked child: normal termination, exit 0 => valid alignment written, exit != 0 => diagnostic, valid request => exit 0, unreadable/unwritable => exit != 0. (C') leg C05fmt: the second command-line program kalignfmt (src/run_reformat.c) over --format 5 values x {aligned FASTA, MSF, Clustal, unaligned FASTA, missing, directory, empty, single record} x {none, --unalign, --changename, --clean, two pairs} x {file, missing directory, stdout} = 720 command lines in a forked child: normal termination, no sanitizer report, missing/unreadable/empty input, unknown format and unwritable output => exit != 0 with a diagnostic, aligned input => exit 0 and the rows of the input in the requested format. (D) leg C05vg: inside valgrind memcheck: the array API on all pairs/triples over {A,C} up to length 2 (equal lengths force the name tie-break), every token string of <= 3 tokens over 12 tokens as a file, and 8 shapes (2 x 520 columns with 1 and 4 threads, 101 sequences, protein with U/X/J/O, the three writers, aligned input); memcheck's error count is read after every case. non-trivial = inputs that were aligned successfully", "nontrivial_aligned_successfully",
+    "sequences the reader reported. (C) leg C05cli: every option string of a grammar (--type 8 values incl. empty and garbage, --gpo 6, --gpe 3, --tgpe 3, -n 7, --format 5, input {nucleotide, protein, missing, directory, empty, single record}, output {file, missing directory, stdout}; quick: two sub-products, thorough: the full product) and every single injected fopen failure (3 formats x {one file, two files, two files + stdin}) and 6 command lines naming two good files and a sequence-free file (0 bytes / blank lines) as first, middle or last input through the CLI main() in a forked child: normal termination, exit 0 => valid alignment written, exit != 0 => diagnostic, valid request => exit 0, unreadable/unwritable => exit != 0. (C') leg C05fmt: the second command-line program kalignfmt (src/run_reformat.c) over --format 5 values x {aligned FASTA, MSF, Clustal, unaligned FASTA, missing, directory, empty, single record} x {none, --unalign, --changename, --clean, two pairs} x {file, missing directory, stdout} = 720 command lines in a forked child: normal termination, no sanitizer report, missing/unreadable/empty input, unknown format and unwritable output => exit != 0 with a diagnostic, aligned input => exit 0 and the rows of the input in the requested format. (D) leg C05vg: inside valgrind memcheck: the array API on all pairs/triples over {A,C} up to length 2 (equal lengths force the name tie-break), every token string of <= 3 tokens over 12 tokens as a file, and 8 shapes (2 x 520 columns with 1 and 4 threads, 101 sequences, protein with U/X/J/O, the three writers, aligned input); memcheck's error count is read after every case. non-trivial = inputs that were aligned successfully", "nontrivial_aligned_successfully",
     ["no independent notion of what a malformed file 'means' is imposed: the sequences the reader reports are the reference", "allocation failure is not injected"],
     level="fault_enumeration")
 
